@@ -92,6 +92,17 @@ def _on_alarm(_sig, _frm):
     raise _SoftTimeout()
 
 
+def _violation(ctx: Ctx, mechanism: str, description: str, case) -> None:
+    """ctx.violation, except that the first sample of a mechanism is always kept: the orchestrator reports a mechanism only
+    through a kept sample, and a shard here can meet more than MAX_VIOLATIONS_KEPT / 3 distinct ones."""
+    from ..ctx import MAX_VIOLATIONS_KEPT, jsonable
+
+    ctx.violation_mechs[mechanism] += 1
+    have = sum(1 for v in ctx.violations if v["mechanism"] == mechanism)
+    if have == 0 or (have < 3 and len(ctx.violations) < MAX_VIOLATIONS_KEPT):
+        ctx.violations.append({"mechanism": mechanism, "description": description[:600], "case": jsonable(case), "shard": ctx.shard})
+
+
 def _cpu_of(pid: int) -> float | None:
     """User+system CPU seconds consumed by a live process (None when it is gone)."""
     try:
@@ -345,7 +356,7 @@ class Judge:
             ctx.inconclusive_(f"harness: {e.name} ({role}) raised {type(exc).__name__}: {str(exc)[:120]} outside the library")
             return
         tag = f"foreign-exception:{type(exc).__name__}@{org}" if role == "parse" else f"consumer-foreign-exception:{type(exc).__name__}@{org}"
-        ctx.violation(tag, f"{e.name} [{how}] {role}: {type(exc).__name__}: {str(exc)[:200]}",
+        _violation(ctx, tag, f"{e.name} [{how}] {role}: {type(exc).__name__}: {str(exc)[:200]}",
                       {"entry": e.name, "how": how, "input": replayable(inp), "exception": f"{type(exc).__name__}: {str(exc)[:300]}",
                        "origin": org})
 
@@ -398,7 +409,7 @@ def judge_rerun(ctx: Ctx, case: dict, res: str, why: str) -> None:
         ctx.notes.append(f"{name} [{stage}]: an input of {size} exceeded the {why} but finished alone within {HARD_S:.0f}s")
     elif res == "hang":
         if size <= MAX_HANG_INPUT:
-            ctx.violation(f"hang@{where}", f"{name} ({stage}, {case.get('mode')}) did not return within {HARD_S:.0f}s of CPU time, alone in a fresh interpreter, "
+            _violation(ctx, f"hang@{where}", f"{name} ({stage}, {case.get('mode')}) did not return within {HARD_S:.0f}s of CPU time, alone in a fresh interpreter, "
                           f"on an input of {size}", {"entry": name, "stage": stage, "how": case.get("mode"), "variant": case.get("variant"),
                                                      "input": replayable(_plain(case.get("input")))})
         else:
@@ -589,11 +600,12 @@ def run_binary(J: Judge, e: Entry, quota: int, budget: Budget, sys_cap: int) -> 
     # ---- seeds: must be accepted as they are
     for s in e.seeds:
         st, fm, _rs, _pos = fieldmap_of(s, e.variants[0])
-        if st != "ok":
-            o = guarded(e.fn, s, **e.variants[0])
-            if o[0] != "ok":
-                ctx.stat(f"seed-refused:{e.name}")
-                continue
+        o = guarded(e.fn, s, **e.variants[0])
+        if st != "ok" and o[0] != "ok":
+            ctx.stat(f"seed-refused:{e.name}")
+            continue
+        if o[0] == "ok" and len(corpus) < 3 and J.mark(e, "octets", 0, s):
+            consume_generic(J, e, o[1], s, "valid seed")   # the consumers see valid objects whatever the budget allows afterwards
         if not stream or not fm:
             fm = guess_fieldmap(s)
         corpus.append((s, fm, 0))
@@ -652,12 +664,12 @@ def run_binary(J: Judge, e: Entry, quota: int, budget: Budget, sys_cap: int) -> 
             elif rs0.tell() == len(m):
                 ctx.mon("position:whole-vs-stream")
                 if accepted_stream is None:
-                    ctx.violation(f"stream-position:eof-dependent-acceptance:{e.name}",
+                    _violation(ctx, f"stream-position:eof-dependent-acceptance:{e.name}",
                                   f"{e.name} accepts these {len(m)} octets when the stream ends with them and refuses them when more octets follow: "
                                   "the parse depends on where the caller's stream ends (a short read taken for a field, or a look past the object)",
                                   {"entry": e.name, "input": replayable(m), "how": label, "kwargs": repr(kw)})
                 elif accepted_stream[1] != len(m):
-                    ctx.violation(f"stream-position:eof-dependent-length:{e.name}",
+                    _violation(ctx, f"stream-position:eof-dependent-length:{e.name}",
                                   f"{e.name} consumes exactly these {len(m)} octets when the stream ends with them, yet stops at {accepted_stream[1]} "
                                   "when more octets follow", {"entry": e.name, "input": replayable(m), "how": label, "kwargs": repr(kw),
                                                               "tell": accepted_stream[1]})
@@ -783,7 +795,7 @@ def judge_position(J: Judge, e: Entry, obj, tell: int, m: bytes, label: str, kw)
         ctx.stat("position:exact")
         return
     if tell > len(s) and data[: len(s)] == s:
-        ctx.violation(f"stream-position:overread:{e.name}",
+        _violation(ctx, f"stream-position:overread:{e.name}",
                       f"{e.name} returned an object whose serialization is the first {len(s)} octets of the stream but left the stream at {tell}: "
                       f"{tell - len(s)} octets of the caller's were consumed", {"entry": e.name, "input": replayable(m), "how": label,
                                                                                    "kwargs": repr(kw), "tell": tell, "serialized_len": len(s)})
@@ -805,6 +817,8 @@ def run_text(J: Judge, e: Entry, quota: int, budget: Budget, sys_cap: int) -> No
         if o[0] == "ok":
             seeds.append(s)
             ctx.stat("seeds-accepted")
+            if len(seeds) <= 3 and J.mark(e, "text", 0, s):
+                consume_generic(J, e, o[1], s, "valid seed")
         else:
             ctx.stat(f"seed-refused:{e.name}")
     if not seeds:
@@ -862,8 +876,8 @@ def run_text(J: Judge, e: Entry, quota: int, budget: Budget, sys_cap: int) -> No
             for t, lab, first in T.systematic(s, 40, e.tokens):
                 test(t, lab, first, 1, vi)
     if e.extra is not None:
-        for t, lab in e.extra(rng, max(150, quota // 3)):
-            if budget.over():
+        for n_extra, (t, lab) in enumerate(e.extra(rng, max(150, quota // 3))):
+            if budget.over() and n_extra >= 20:
                 break
             test(t, lab, 1, 2)
             ctx.classes["text:checksum-recomputed"] += 1
@@ -871,8 +885,6 @@ def run_text(J: Judge, e: Entry, quota: int, budget: Budget, sys_cap: int) -> No
         depths = [2, 10, 100, 400, 900, 990, 1000, 1010, 2000, 10000] + ([30000, 100000] if ctx.tier == "thorough" else [])
         for d in depths:
             for t in e.nest(d):
-                if budget.over() and d > 1010:
-                    break
                 if len(t) > 250000:
                     continue
                 test(t, f"nest{d}", 1, 1, nocap=True)
@@ -904,6 +916,8 @@ def run_json(J: Judge, e: Entry, quota: int, budget: Budget, per_path: int | Non
         if o[0] == "ok":
             seeds.append(s)
             ctx.stat("seeds-accepted")
+            if len(seeds) <= 3 and J.mark(e, "json", 0, s):
+                consume_generic(J, e, o[1], s, "valid seed")
         else:
             ctx.stat(f"seed-refused:{e.name}")
     if not seeds:
@@ -1083,11 +1097,11 @@ def judge_predicate(J: Judge, e: Entry, pname: str, o, args) -> None:
             ctx.inconclusive_(f"harness: predicate {pname} raised {type(exc).__name__}: {str(exc)[:120]} outside the library")
             return
         kind = "library" if is_lib_exc(exc) else "foreign"
-        ctx.violation(f"predicate-raises:{pname}:{kind}:{type(exc).__name__}@{org}",
+        _violation(ctx, f"predicate-raises:{pname}:{kind}:{type(exc).__name__}@{org}",
                       f"{pname} raised {type(exc).__name__}: {str(exc)[:200]} for arguments of the declared types instead of answering a bool",
                       {"predicate": pname, "args": short(args, 400), "exception": f"{type(exc).__name__}: {str(exc)[:300]}"})
     elif not isinstance(o[1], bool):
-        ctx.violation(f"predicate-non-bool:{pname}", f"{pname} answered {o[1]!r} ({type(o[1]).__name__})", {"predicate": pname, "args": short(args, 400)})
+        _violation(ctx, f"predicate-non-bool:{pname}", f"{pname} answered {o[1]!r} ({type(o[1]).__name__})", {"predicate": pname, "args": short(args, 400)})
     else:
         ctx.stat(f"pred-answer:{o[1]}")
 
@@ -1763,7 +1777,8 @@ def _merge(ctx: Ctx, r: dict) -> None:
                    ("selftest", ctx.selftest), ("violation_mechs", ctx.violation_mechs)):
         tgt.update(r.get(k, {}))
     for v in r.get("violations", []):
-        if len(ctx.violations) < MAX_VIOLATIONS_KEPT and sum(1 for w in ctx.violations if w["mechanism"] == v["mechanism"]) < 3:
+        have = sum(1 for w in ctx.violations if w["mechanism"] == v["mechanism"])
+        if have == 0 or (have < 3 and len(ctx.violations) < MAX_VIOLATIONS_KEPT):
             v["shard"] = ctx.shard
             ctx.violations.append(v)
     for smp in r.get("samples", []):
@@ -1822,7 +1837,7 @@ def supervise(ctx: Ctx, items: list) -> None:
                         tb = traceback.format_exc()
                         org = lib_origin(ex)
                         if org is not None and not isinstance(ex, (KeyboardInterrupt, SystemExit)):
-                            cctx.violation(f"crash:{type(ex).__name__}@{org}",
+                            _violation(cctx, f"crash:{type(ex).__name__}@{org}",
                                            f"uncaught {type(ex).__name__} from the library while working on {label}: {ex}"[:500], {"traceback": tb[-1500:]})
                         else:
                             cctx.inconclusive_(f"harness error while working on {label}: {tb[-600:]}")
@@ -2160,7 +2175,7 @@ def _atheris_pass(ctx: Ctx) -> None:
             ctx.mon(f"atheris-execs:{name}", n)
             ctx.stat("atheris:parsers-fuzzed")
             for v in r.get("violations", []):
-                ctx.violation(v["mechanism"], v["description"], v["case"])
+                _violation(ctx, v["mechanism"], v["description"], v["case"])
 
     for name in names:
         if ctx.out_of_time():
